@@ -23,6 +23,11 @@ ST_ = "magpylib/_src/style.py"
 TU_ = "magpylib/_src/display/traces_utility.py"
 TMF = FD + "field_BH_triangularmesh.py"
 MUTANTS = [
+    ("C08", "cuboid-core-writes-observers", FD + "field_BH_cuboid.py", "    x, y, z = np.copy(observers).T", "    x, y, z = observers.T", "red"),
+    ("C12", "cuboid-core-absolute-regulariser", FD + "field_BH_cuboid.py", "    mmm = np.sqrt(xma2 + ymb2 + zmc2)", "    mmm = np.sqrt(xma2 + ymb2 + zmc2 + 1e-30)", "red"),
+    ("C05", "cuboid-core-quadratic-term", FD + "field_BH_cuboid.py", "    bz_pol_y = -pol_y * ff2x * qsigns[:, 1, 2]", "    bz_pol_y = -pol_y * abs(pol_y) * ff2x * qsigns[:, 1, 2]", "red"),
+    ("C12", "dipole-core-softening", FD + "field_BH_dipole.py", "    r = np.sqrt(x**2 + y**2 + z**2)  # faster than np.linalg.norm", "    r = np.sqrt(x**2 + y**2 + z**2 + 1e-24)", "red"),
+    ("C06", "triangle-core-batch-shortcut", FD + "field_BH_triangle.py", "    return np.where(abs(result) > 6.2831853, 0, result)", "    return np.where(abs(result) > 6.2831853, 0, result) if np.any(abs(result) > 1e-3) else result * 0", "red"),
     ("C16", "open-edges-only-boundary", TMF, "    return edges_uniq[edge_counts != 2]", "    return edges_uniq[edge_counts < 2]", "equivalent"),
     ("C16", "open-edges-third-edge-wrong", TMF, "[faces[:, 0:2], faces[:, 1:3], faces[:, ::2]]", "[faces[:, 0:2], faces[:, 1:3], faces[:, 0:2]]", "red"),
     ("C16", "subsets-single-pass", TMF, "        while len(first) > lf:\n            lf = len(first)", "        for _once in (0,):\n            lf = len(first)", "red"),
